@@ -595,6 +595,10 @@ class PlanRecorder(contextlib.AbstractContextManager):
         self.routeRev = {}     # id(rq) -> [uid] of the propagated reverse path
         self.omsB = []         # element lists of the OMS (one integer each) when routing starts
         self.raised = {}       # id(rq) -> blocking reasons in the order they were first observed on the request
+        self.red = []          # one record per redesign (planning(redesign=True)): request id, indices (export order) of
+        #                        the elements it was given, indices of the elements whose exported settings changed, and
+        #                        the digests of the elements it was given when it returned
+        self.net = None        # the network the redesigns are observed on (set by run_batch)
         self._saved = []
         self._keep = []
 
@@ -641,6 +645,22 @@ class PlanRecorder(contextlib.AbstractContextManager):
                 see(r)
             return out
 
+        o_design = R.network_module.design_network
+
+        def design_network(reference_channel, network, equipment, *a, **kw):
+            # only reached through compute_path_with_disjunction(redesign=True): `network` is the subgraph of one route
+            if rec.net is None:
+                return o_design(reference_channel, network, equipment, *a, **kw)
+            before, uids = net_digest(rec.net)
+            out = o_design(reference_channel, network, equipment, *a, **kw)
+            after, _ = net_digest(rec.net)
+            pos = {u: k + 1 for k, u in enumerate(uids)}
+            given = sorted(pos[n.uid] for n in network.nodes() if n.uid in pos)
+            rec.red.append(dict(id=str(getattr(reference_channel, 'request_id', '')), given=given,
+                                changed=[k + 1 for k, (x, y) in enumerate(zip(before, after)) if x != y],
+                                post=[after[k - 1] for k in given]))
+            return out
+
         def pth_assign_spectrum(pths, rqs, oms_list, rpths, policy='first_fit'):
             for p, r, rp in zip(pths, rqs, rpths):
                 see(r)
@@ -654,6 +674,12 @@ class PlanRecorder(contextlib.AbstractContextManager):
                 rec.reason[id(r)] = getattr(r, 'blocking_reason', '') or ''
             return out
 
+        class _NM:                      # request.py calls network_module.design_network: shadow that one name only
+            def __getattr__(self_, k):
+                return design_network if k == 'design_network' else getattr(o_nm, k)
+        o_nm = R.network_module
+        self._saved.append((R, 'network_module', o_nm))
+        R.network_module = _NM()
         for mod, name, new, old in ((R, 'propagate', propagate, o_prop),
                                     (R, 'propagate_and_optimize_mode', propagate_and_optimize_mode, o_opt),
                                     (W, 'compute_path_dsjctn', compute_path_dsjctn, o_route),
@@ -846,7 +872,7 @@ def planning_api(network, eq, data):
 REFUSALS = ('ServiceError', 'DisjunctionError')       # the code's legitimate "I will not compute this batch"
 
 
-def run_batch(bench, data, name, want_csv=True, via='json', warm=None):
+def run_batch(bench, data, name, want_csv=True, via='json', warm=None, redesign=False):
     """planning() on a fresh network under freshly set SimParams, recorded.  via='api': same steps, requests built with
     PathRequest(**params); via='cli': the command-line entry point on files, judged on the documents it SAVES.  Returns a Run with: inputs, entries (per response entry: outcome `o` assembled from the
     captures, projected response entry `e`, CSV row `row`), netB/netA and simB/simA digests, response (raw), exc"""
@@ -854,12 +880,12 @@ def run_batch(bench, data, name, want_csv=True, via='json', warm=None):
     from gnpy.tools.json_io import results_to_json
     from gnpy.tools.cli_examples import _path_result_json
     try:
-        return _run_batch(bench, data, name, want_csv, via, planning, results_to_json, _path_result_json, warm)
+        return _run_batch(bench, data, name, want_csv, via, planning, results_to_json, _path_result_json, warm, redesign)
     finally:
         set_sim('')
 
 
-def _run_batch(bench, data, name, want_csv, via, planning, results_to_json, _path_result_json, warm=None):
+def _run_batch(bench, data, name, want_csv, via, planning, results_to_json, _path_result_json, warm=None, redesign=False):
     net, eq = fresh_network(bench)
     run = Run()
     run.name, run.bench, run.data = name, bench, data
@@ -885,9 +911,13 @@ def _run_batch(bench, data, name, want_csv, via, planning, results_to_json, _pat
     run.exc = None
     run.refused = False
     rec = PlanRecorder()
+    rec.net = net if redesign else None
+    run.redesign, run.red = bool(redesign), rec.red
     try:
         with rec:
-            if via == 'cli':
+            if redesign:          # the pipeline variant --redesign-per-request (legacy JSON entry point only)
+                _, _, _, rqs, _, result = planning(net, eq, copy.deepcopy(data), redesign=True)
+            elif via == 'cli':
                 response = response2 = planning_cli(bench, copy.deepcopy(data), 'json')     # the document it SAVED
                 rqs = list(rec._keep)                                                       # the request table it used
             elif via == 'api':
@@ -988,7 +1018,7 @@ def core_of(ent):
                 hasRow=ent['row'] is not None, row=ent['row'] or EMPTY_ROW)
 
 
-def trace_of(run, c16=None, j19=True):
+def trace_of(run, c16=None, j19=True, soloPost=None):
     """one ndjson line for Trace_Planning.  c16: per entry index -> dict(exp, solo core, unit) or None"""
     ents = []
     for i, ent in enumerate(run.entries):
@@ -998,8 +1028,14 @@ def trace_of(run, c16=None, j19=True):
             x['c16'] = dict(has=True, exp=c16[i].get('exp', ''), cur=core_of(ent), solo=c16[i]['solo'] or NO_CORE,
                             unit=c16[i]['unit'], hasRef='ref' in c16[i], ref=c16[i].get('ref') or NO_CORE)
         ents.append(x)
+    red = []
+    for d in getattr(run, 'red', []):
+        sp = (soloPost or {}).get(d['id'])
+        red.append(dict(id=d['id'], given=d['given'], changed=d['changed'], post=d['post'], hasSolo=sp is not None,
+                        soloPost=sp if sp is not None else []))
     return dict(name=run.name, j16=bool(c16), j19=bool(j19), inputs=run.inputs, ent=ents, nrows=run.nrows,
-                netB=run.netB, netA=run.netA, simB=run.simB, simA=run.simA)
+                netB=run.netB, netA=run.netA, simB=run.simB, simA=run.simA,
+                redesign=bool(getattr(run, 'redesign', False)), red=red)
 
 
 def judge(traces, chk, tag):
